@@ -24,6 +24,8 @@ W, S_, N = Rat.atom("w"), Rat.atom("s"), Rat.atom("N")
 
 
 def run(ck, prog):
+    from props.common import check_memos
+    ck.attempt(check_memos, ck, prog)
     ck.explanation = (
         "Dispatch is decided by evaluating get_linear_complexity for every relevant type string with the three "
         "backends as uninterpreted calls; bindings through the three layers are resolved call by call. Each measure's "
@@ -38,6 +40,7 @@ def run(ck, prog):
         _counting_loop(ck, prog, m)
         _locality(ck, prog, m)
     _entropy(ck, prog)
+    ck.attempt(_alphabet_is_sequence_independent, ck, prog)
     ck.floor("measures summarised", ck.analysed.get("measures summarised", 0), 3)
 
 
@@ -355,3 +358,22 @@ def _entropy(ck, prog):
               slot="alphabet=%s" % "".join(alpha), where=f.loc(loop))
         ck.count("entropy paths compared", len(rows))
     ck.sample({"WF_paths_for_alphabet_LE": [(fmt_conds(c), repr(v)) for c, v in rows][:4]})
+
+
+def _alphabet_is_sequence_independent(ck, prog):
+    """the entropy base is len(alphabet): the alphabet handed to the measures must be the list of representatives, whatever
+    the sequence contains (predefined sizes and user alphabets)"""
+    from props import C12
+    from lcsa.sym import LETTERS
+    f = prog.fn(CX, "SequenceComplexity.reduce_alphabet")
+    construct = CX_PATH + ":" + f.qual
+    user = {L: ("A" if L in "AGSTP" else ("K" if L in "KRH" else "L")) for L in LETTERS}
+    cases = [("user alphabet", C12.reduction(prog, user=dict(user)), sorted(set(user.values())))]
+    for size in (2, 8, 20):
+        r = C12.reduction(prog, size=size)
+        cases.append(("size %d" % size, r, None))
+    for name, r, want in cases:
+        ok = r[0] == "ok" and r[2] is not None and (want is None or sorted(r[2]) == want) and (want is not None or len(r[2]) == int(name.split()[1]))
+        ck.ob("DEP-alphabet", construct, ok, expected="alphabet = the representatives, independent of the sequence",
+              found=(sorted(r[2]) if r[0] == "ok" and r[2] is not None else ("depends on the residues present" if r[0] == "ok" else r)), slot=name, where=f.loc(),
+              note="otherwise the WF value of a window changes when residues outside the window change")
